@@ -187,11 +187,46 @@ def seedOK (s : String) (nblocks : Nat) : Bool :=
       !h.isEmpty && h.length ≤ 16 && h.toList.all (fun c => (hexDigit c).isSome)
   | _ => false
 
+/-! Interior aliasing (optional 5th token `p.q.i[,p.q.i…]`): pointer operand `p` (a singleton block) points at the `i`-th
+sub-object of its type inside the object of position `q`. In the by-value model the operand's VALUE is that sub-object's value
+before the call and the answer is again `same=1 ops=1`; the model side validates the syntax (the same checks as the Go executor):
+`p`, `q` one lower-case hex digit below the number of positions, `p ≠ q`, `p` a singleton block, no `p` twice, no `q` that is
+itself some `p`, `i` = 1…3 decimal digits. `C19_interior_*` (Props/C19.lean) are the statements about the memory model. -/
+
+def parseInterItem (s : String) : Option (Nat × Nat) :=
+  match s.splitOn "." with
+  | [a, b, i] =>
+    match a.toList, b.toList with
+    | [ca], [cb] =>
+      if 1 ≤ i.length && i.length ≤ 3 && i.toList.all (fun c => '0' ≤ c && c ≤ '9') then
+        match hexDigit ca, hexDigit cb with
+        | some p, some q => some (p, q)
+        | _, _ => none
+      else none
+    | _, _ => none
+  | _ => none
+
+def noDup : List Nat → Bool
+  | [] => true
+  | a :: t => !t.contains a && noDup t
+
+def interOK (s : String) (blocks : List (List Nat)) : Bool :=
+  match (s.splitOn ",").mapM parseInterItem with
+  | none => false
+  | some items =>
+    let n := blocks.flatten.length
+    let ps := items.map Prod.fst
+    items.all (fun (p, q) => decide (p < n) && decide (q < n) && p != q && blocks.contains [p] && !ps.contains q) && noDup ps
+
 def handle (args : List String) : String :=
   match args with
   | [_ty, _meth, part, seed] =>
     match parsePartition part with
     | some blocks => if seedOK seed blocks.length then "same=1 ops=1" else "bad-op"
+    | none => "bad-op"
+  | [_ty, _meth, part, seed, inter] =>
+    match parsePartition part with
+    | some blocks => if seedOK seed blocks.length && interOK inter blocks then "same=1 ops=1" else "bad-op"
     | none => "bad-op"
   | _ => "bad-op"
 
